@@ -4,7 +4,7 @@ import LenaModel.Model.C16Spec
 import LenaModel.Model.C16X
 import LenaModel.Model.C16P
 import LenaModel.Model.C16S
-import LenaModel.Model.C16S
+import LenaModel.Model.C16Q
 /-! Model driver for C16.  Every request carries the adapter arguments
   "caps":[run,fill,request,compute,reset] (booleans: which callables the wrapped element has),
   "bufsize":int, "reset":null|bool, "bi":bool, "bo":bool, "yor":bool
@@ -32,7 +32,15 @@ value >= stop, after/without storing it), "ev":"call"|"request" (where the adapt
   {"op":"runx",...,"xs"} -> {"r":[[ints]],"raised":bool}   (_run_fill_compute)
   {"op":"runp",...,"j":int|null,"xs"} -> {"r":..,"spec":..,"old":..}   (Model/C16P.lean: Run element reading j values)
 Further optional fields: "frac" (init: bufsize != int(bufsize)), el."kpar", "xs2" (run / ops / split: a second flow on the
-same object), "apre"/"apost" (split: elements around the adapter in the branch). -/
+same object), "apre"/"apost" (split: elements around the adapter in the branch).
+FillRequestSeq driven through its own fill()/request() (Model/C16Q.lean); the adapter arguments at top level are those of the
+CONTAINED FillRequest ("inner":"fr") or unused ("inner":"raw": the raw test element is the fill/request element):
+  {"op":"seqops",...,"inner":"fr"|"raw","outer":{"bufsize","reset","bi","bo","yor"},"ops":[int|null],
+   "xs0"?:[ints] (run on the object before the history),"ops2"?:[..] (a second history),"xs2"?:[ints] (run afterwards),
+   "xs":[ints] (run of a fresh identical sequence)}
+  -> {"e":..,"phase":"init"} | {"t":[[out|null,n_count,len_in,len_out],..],"r0"?,"t2"?,"r2"?,"runseq":[[ints]],
+      "runinner":[[ints]]|null (post of the contained adapter's run on the pre-processed flow: rhs of seq_schedule_independent),
+      "chk":[seqOps = the outputs of "t"; seq_ops_eq_inner rhs = the outputs of "t"]} -/
 open Lean Lena.Drv Lena.C16
 
 structure TestEl where
@@ -319,4 +327,60 @@ def handle (j : Json) : Json :=
       | _, _ => err "bad runp args"
     | _ => err "unknown op"
 
-def main : IO Unit := run handle
+def ofTrace (tr : List (Option (List (List Int)) × Nat × Nat × Nat)) : Json :=
+  ofList (fun (r : Option (List (List Int)) × Nat × Nat × Nat) =>
+    Json.arr #[ofOpt ofOuts r.1, ofNat r.2.1, ofNat r.2.2.1, ofNat r.2.2.2]) tr
+
+/-- the passes over one `FillRequestSeq` object: [run xs0], history ops, [history ops2], [run xs2]; and the run of a
+fresh identical object on xs -/
+def seqReply {τ : Type} (t : TestEl) (inner : El τ Int (List Int)) (size : τ → Nat × Nat × Nat) (s0 : τ) (outer : Cfg)
+    (j : Json) (ops : List (Op Int)) (more : List (String × Json)) : Json :=
+  let pre := preOf t.pre
+  let post := postOf t.post
+  let p0 : Option (List (List Int)) × τ := match intList? (getD j "xs0") with
+    | some xs0 => let r := seqRun pre post inner outer s0 xs0; (some r.1, r.2)
+    | none => (none, s0)
+  let tr := traceOpsEl (seqEl pre post inner) size ops p0.2
+  let ro := seqOps pre post inner outer ops p0.2
+  let p2 : Option (List (Option (List (List Int)) × Nat × Nat × Nat)) × τ := match parseOps (getD j "ops2") with
+    | some ops2 => let q := traceOpsEl (seqEl pre post inner) size ops2 tr.2; (some q.1, q.2)
+    | none => (none, tr.2)
+  let r2 : Option (List (List Int)) := (intList? (getD j "xs2")).map (fun xs2 => (seqRun pre post inner outer p2.2 xs2).1)
+  let xs := (intList? (getD j "xs")).getD []
+  let opt (k : String) (v : Option Json) : List (String × Json) := match v with | some v => [(k, v)] | none => []
+  Json.mkObj ([("t", ofTrace tr.1), ("runseq", ofOuts (seqRun pre post inner outer s0 xs).1),
+      ("seqok", Json.bool (ro.1 == tr.1.filterMap (·.1)))]
+    ++ opt "r0" (p0.1.map ofOuts) ++ opt "t2" (p2.1.map ofTrace) ++ opt "r2" (r2.map ofOuts) ++ more)
+
+def parseOuter (j : Json) : Option (Except InitErr Cfg) := do
+  let n ← int? (getD j "bufsize")
+  let rst ← optBool (getD j "reset")
+  let bi ← bool? (getD j "bi")
+  let bo ← bool? (getD j "bo")
+  let yor ← bool? (getD j "yor")
+  some (mkFillRequestSeq n rst bi bo yor)
+
+def handleSeq (j : Json) : Json :=
+  match parseCfg j, parseOuter (getD j "outer"), parseEl (getD j "el"), parseOps (getD j "ops") with
+  | some (.ok c), some (.ok outer), some t, some ops =>
+    let e := baseEl t
+    if str? (getD j "inner") == some "raw" then
+      seqReply t e (fun _ => (0, 0, 0)) [] outer j ops [("runinner", Json.null), ("innerok", Json.bool true)]
+    else
+      let pre := preOf t.pre
+      let post := postOf t.post
+      let xs := (intList? (getD j "xs")).getD []
+      -- rhs of `seq_ops_eq_inner`: the contained adapter driven with the pre-processed fills, `post` on every request
+      let viaInner := (runOps e c.bufsize c.reset c.bufferInput c.yor (preOps pre ops) (St.init [])).1.map post
+      let direct := (seqOps pre post (frEl e c) outer ops (St.init [])).1
+      seqReply t (frEl e c) (fun s => (s.nCount, s.bufIn.length, s.bufOut.length)) (St.init []) outer j ops
+        [("runinner", ofOuts (post (runFR e c [] (xs.flatMap pre)).1)),
+         ("innerok", Json.bool ((intList? (getD j "xs0")).isSome || viaInner == direct))]
+  | some (.error e), _, _, _ => (errJson e).setObjVal! "phase" "init"
+  | _, some (.error e), _, _ => (errJson e).setObjVal! "phase" "init"
+  | _, _, _, _ => err "bad seqops args"
+
+def handleAll (j : Json) : Json :=
+  if str? (getD j "op") == some "seqops" then handleSeq j else handle j
+
+def main : IO Unit := run handleAll
